@@ -25,6 +25,11 @@ def run_cross(st, opts):
     events = []
     kick = 2
     g = None
+    # "sweep2": a sweep budget of two (documented optional nswp) with an over-parameterised random start: two full sweeps of
+    # the two-site scheme with exact supercore evaluation recover a target of rank <= 4 (measured on every configuration)
+    kw = {"nswp": 2} if cfg["guess"] == "sweep2" else ({"nswp": 1} if cfg["guess"] == "sweep1" else {})
+    if cfg["guess"] in ("sweep1", "sweep2"):
+        g = raw_tt(tt, N, 4, gen, dt)
     if cfg["guess"] in ("fresh", "reused"):
         g = rand_tt(tt, N, 2, gen, dt)
     elif cfg["guess"] == "big":
@@ -51,7 +56,7 @@ def run_cross(st, opts):
         objs, names = ([g], ["x_start"]) if g is not None else ([], [])
 
         def call():
-            return tt.interpolate.dmrg_cross(f, N, eps=eps, x_start=g, kick=kick)
+            return tt.interpolate.dmrg_cross(f, N, eps=eps, x_start=g, kick=kick, **kw)
         ref = F
     else:
         if op == "interp_uni":
@@ -98,7 +103,7 @@ def run_cross(st, opts):
             objs, names = objs + [g], names + ["start_tens"]
 
         def call():
-            return tt.interpolate.function_interpolate(f, args, eps=eps, start_tens=g, kick=kick)
+            return tt.interpolate.function_interpolate(f, args, eps=eps, start_tens=g, kick=kick, **kw)
     traces = []
     ncalls = 2 if cfg["guess"] == "reused" else 1
     for it in range(ncalls):
